@@ -16,6 +16,7 @@ FLAGS = 3  # bit0: resolve_packages, bit1: replace_time_conditions
 LEVEL = 0
 YMAX = 1
 YOCC = 2
+HISTORY = 1  # 1: the same expression is resolved once before with ANOTHER package table on the SAME resolver instance (real caches active)
 PKG_POOL = ("[10]", "[UB3] O [13]", None, "[2P] X [14]", "[11] U [12]", "[15][901]")
 NPOOL = 3
 LEAVES = ("[5]", "[1P]", "[2P]", "[3P0..4]", "[UB1]", "[UB2]", "[UB3]")
@@ -122,7 +123,30 @@ def resolve(idx: int, t1: int, t2: int, t3: int, y0: int, y1: int, y2: int) -> b
     ys = [y0, y1, y2]
     nocc = min(len(occ), YOCC) if do_pkg else 0
     ysel = [xs.pick(ys[i], 0, YMAX + 1) if i < nocc else 0 for i in range(3)]
-    env.setup(packages={k: v for k, v in table.items() if v is not None}, pkg_yields=ysel)
+    pk = {k: v for k, v in table.items() if v is not None}
+    if HISTORY and do_pkg and used:
+        # what happened before must not matter: resolve the same string under a different table first (same resolver instance,
+        # real lru caches of the code under test active and initially empty)
+        xs.REAL_LRU = True
+        xs.clear_ahbicht_caches()
+        other = {k: "[77] O [78]" for k in ("1P", "2P", "3P")}
+        log = env.setup(packages=dict(other), pkg_yields=[])
+        try:
+            detloop.run(parse_expression_including_unresolved_subexpressions(text, resolve_packages=True, replace_time_conditions=do_time))
+        except Exception:  # pylint:disable=broad-except
+            pass
+        with xs.nt():
+            import inject
+
+            from ahbicht.content_evaluation.token_logic_provider import TokenLogicProvider
+
+            res = inject.instance(TokenLogicProvider).get_package_resolver(env.FMT, env.FV)
+            res._t.clear()
+            res._t.update(pk)
+            res._y[:] = list(ysel)
+            res._n = 0
+    else:
+        env.setup(packages=pk, pkg_yields=ysel)
     desc = dict(idx=idx, t1=t1, t2=t2, t3=t3, y0=y0, y1=y1, y2=y2)
     unresolved = [k for k in used if do_pkg and table[k] is None]
     try:
